@@ -72,6 +72,11 @@ def frame_violations(op, prev, cur, out):
         m = unchanged("lverts", {l}) or unchanged("vunis") or unchanged("uverts")
         if m:
             return ["end assignment: " + m]
+    if t in ("UAV", "URV", "VAU", "VRU") and out[0] == "none":
+        u, v = (op[1], op[2]) if t in ("UAV", "URV") else (op[2], op[1])
+        m = unchanged("vunis", {v}) or unchanged("uverts", {u}) or unchanged("vlinks") or unchanged("lverts")
+        if m:
+            return [f"membership change of vertex {v} in universe {u}: " + m]
     if t == "UNL" and out[0] != "raise":
         a, b = op[1], op[2]
         joining = [l for l in prev["vlinks"][a] if other_end(prev["lverts"], l, a) == b]
